@@ -297,6 +297,11 @@ def run(ctx):
             if isinstance(f_, ast.Name) and f_.id in ("set", "frozenset"):
                 return True
             if isinstance(f_, ast.Attribute) and f_.attr in ("difference", "union", "intersection", "symmetric_difference"):
+                # a set method only on a set receiver (pandas.Index has methods of the same names and is ordered); an
+                # unknown receiver (a parameter, an attribute) is taken as a set unless it is spelled `<x>.columns` / `.index`
+                rv_ = f_.value
+                if isinstance(rv_, ast.Attribute) and rv_.attr in ("columns", "index"):
+                    return False
                 return True
             return False
         if isinstance(e_, ast.BinOp) and isinstance(e_.op, (ast.Sub, ast.BitOr, ast.BitAnd, ast.BitXor)):
